@@ -122,6 +122,10 @@ type VFunc struct {
 	Nil      T
 	Abstract string // name of abstract function value when Fn == nil
 	Typ      types.Type
+	// Contract/GhostArgs: function contract this (abstract) value is known to
+	// satisfy, with the values its ghost-bound parameters stand for
+	Contract  string
+	GhostArgs []Value
 }
 
 type VMap struct {
